@@ -770,7 +770,11 @@ def run(ctx: C.Ctx):
                 "template's own variables, load before dump): parameter list, body text and ordered closure keys of the captured cls_asdict "
                 '== the Lean generator model byte for byte; names read / bound per symtable == model; the function is run through every branch '
                 'of its bookkeeping (NameError / UnboundLocalError = violation) and that outcome == the model verdict (theorem '
-                'C15_gendump_well_scoped).')
+                'C15_gendump_well_scoped). The same for the default-engine load generator (harness/props/c15_genload.py, model '
+                'DW/Model/GenLoad.lean): _pre_from_dict, CatchAll with / without default, raise_on_unknown_json_key, path fields (required / '
+                'default / default_factory; str / int / bool parts), all-path classes, tag keys next to CatchAll, hostile field names: body '
+                "text, ordered closure keys and globals byte for byte; the names every model statement declares vs Python's ast reading of "
+                'the source line; the function run on documents driving every branch; scoping verdict of the model.')
     ctx.assumptions += ['strings with lone surrogates are outside the Lean Char type and not generated',
                         'field names that are attributes of JSONWizard itself (to_dict, from_json, ...) or start with "__" are excluded: '
                         'they conflict with the class API / Python name mangling, not with the generators']
@@ -928,6 +932,9 @@ def run(ctx: C.Ctx):
         # ---- the generator of cls_asdict as text (model: lean/DW/Model/GenDump.lean)
         from . import c15_gendump
         c15_gendump.run_gendump(ctx)
+        # ---- the generator of the default-engine cls_fromdict as text (model: lean/DW/Model/GenLoad.lean)
+        from . import c15_genload
+        c15_genload.run_genload(ctx)
     finally:
         model.SAFE = False
         logging.disable(logging.NOTSET)
